@@ -7,6 +7,27 @@ ROOT = os.path.dirname(os.path.dirname(os.path.abspath(__file__)))
 
 # pid -> (technique, level text, level_note)
 CHECKS = {
+    "C26": ("reference-model monitor: random XML trees serialised by an independent AXML writer (vf/model/axmlw.py) -> AXMLPrinter.get_xml_obj()/get_xml() compared on tags, namespaces, attributes, typed values, text",
+            "Feature-partitioned pools (UTF-8/UTF-16 pools incl. 2-unit lengths, namespaces incl. re-declarations, every Res_value type, text/mixed content, resource-id maps incl. stripped names, comments); a clean base pool is required.",
+            "writer self-checked by an own reader that also parses all shipped AXML files; names are ASCII XML names, values legal XML chars"),
+    "C28": ("reference-model monitor: random resource-table models serialised by an independent resources.arsc writer (vf/model/arscw.py) -> every ARSCParser listing and every resource id compared with the model",
+            "1-2 packages, many types/configs (locales incl. 3-letter/script/variant, density, sdk), plain/complex/compact entries, 32-bit/sparse/16-bit offsets, holes, flags, acyclic references; per-encoding pools.",
+            "shapes restricted to what aapt/aapt2 emit; writer read-back parses every shipped resources.arsc"),
+    "C29": ("sys.monitoring step budget + RecursionError monitor around get_resolved_res_configs / get_app_name / get_app_icon on generated tables with reference chains and cycles of length 1..5 (plain and through bag items)",
+            "Budget calibrated on the acyclic chains of the same run; acyclic chains are also compared exactly; mechanism names carry the cycle length and entry kind.",
+            "budget = multiple of the acyclic maximum; any exception other than RecursionError/budget is reported under its own mechanism"),
+    "C31": ("reference-model monitor: random manifest models -> axmlw -> zip -> APK(bytes, raw=True); every manifest query compared with the model (multisets where androguard gives no order)",
+            "Names with/without dots/leading dot, duplicate permissions, maxSdkVersion, four component kinds + aliases, MAIN/LAUNCHER on 0-3 components, enabled=false, SDK attributes present/absent/codename, features, libraries, attributes with and without namespace.",
+            "Android's name completion rule; MAIN and LAUNCHER split over two filters is not generated"),
+    "C32": ("postcondition contract on APK.get_certificate_der with an independent PKCS#7 verifier (own DER reader + cryptography) over generated v1-signed APKs and single-byte corruptions of .SF / signature + structured alterations; all shipped v1 blocks",
+            "RSA/EC/DSA x SHA-1/256 x signed attributes on/off, 1-2 SignerInfos, extra bag certificates; thorough = every byte of .SF and signature value x 3 values.",
+            "keys and DSA/ECDSA signatures use OS randomness (cryptography cannot be seeded); everything else seeded"),
+    "C33": ("reference-model monitor: APK Signing Blocks built by vf/model/sigblockw.py (v2/v3/v3.1, unknown ids, padding, duplicates, 1-3 signers, 0-3 digests/signatures) inserted before the central directory -> flags, signers, digests, certificates, SDK bounds, attributes, public keys; 135 shipped blocks compared with an own reader",
+            "Single-element and multi-element pools; duplicate flag asked first on a fresh object and after other queries.",
+            "an empty archive carrying a signing block is not generated"),
+    "C34": ("reference-model monitor with python zipfile as second reader: generated archives (stored/deflated, non-ASCII/nested names, 0-5 DEX files and 8 look-alike families) -> get_files/get_file/FileNotPresent/get_dex_names/get_all_dex/is_multidex",
+            "~40 near-miss absent names per archive; manifests valid/absent/garbage.",
+            "zip64, encrypted entries, duplicate names not covered"),
     "C02": ("online monitor on the real linear sweep (checking wrapper per yielded instruction + sys.monitoring step budget) + reference-model comparison on generated valid code and all shipped methods",
             "Valid generated code items (all opcodes incl. 0xFE/0xFF with any register byte, payloads, padding) must be recovered exactly (offsets, lengths, raw bytes, DCode lookups, DEX.disassemble); on random/mutated/crafted buffers every yielded instruction must lie inside the code and round-trip, only InvalidInstruction may be raised, and the sweep must finish within a calibrated step budget; every shipped method is compared with an independent sweep.",
             "trusts vf/model/dalvik.py, vf/model/dexr.py; budget = 100x linear envelope measured on valid code"),
